@@ -90,6 +90,7 @@ type State struct {
 	ExitCode  *smt.Term
 	Trace     []string
 	MapPerm   bool
+	FeasLen   int  // length of PC when the path condition was last found satisfiable
 	Forked    bool // some symbolic branch or split has been taken on this path
 	// AbstractArith: symbolic*symbolic products and divisions by a symbolic
 	// divisor become uninterpreted functions (sound for proving equalities of
